@@ -689,3 +689,9 @@ mod tests {
         assert!(frontend_handler.join().is_ok());
     }
 }
+
+// Verification harnesses (Kani); the sources live outside this repository.
+#[cfg(feature = "verif")]
+mod verif {
+    include!(concat!(env!("VHOST_VERIF_DIR"), "/harness/vu_frontend_req_handler.rs"));
+}
